@@ -13,7 +13,8 @@ from .storage import Table, UndoLog
 from .values import coerce, not_null_error, stored_key, truth
 
 
-_GATED = frozenset(('Select', 'Insert', 'Update', 'Delete', 'SetStmt', 'StartTx', 'Commit', 'Rollback', 'If', 'While', 'Declare', 'Open'))
+_GATED = frozenset(('Select', 'Insert', 'Update', 'Delete', 'SetStmt', 'StartTx', 'Commit', 'Rollback', 'If', 'While', 'Declare', 'Open',
+                    'Return'))
 
 
 def _run_body(stmts, env):
@@ -33,23 +34,24 @@ class FullCompiler(Compiler):
         if m is None:
             raise Unsupported(f'statement {type(node).__name__}')
         fn = m(node, rscope)
-        # Statement gate of the overlapping-requests layer (harness/batchdb/race.py): the statements of a PROCEDURE body are run
-        # one by one, so a request can be suspended / checked against the other request's locks between them.  `engine.stmt_hook` is
-        # None except while a history op "race" runs (one attribute test per procedure statement otherwise).  Trigger and function
-        # bodies are part of the statement that fires / calls them and are not gated.
-        if rscope is not None and rscope.routine.kind == 'PROCEDURE':
+        # Statement gate of the overlapping-requests layer (harness/batchdb/race.py): the statements of routine bodies are run one
+        # by one, so a request can be suspended / checked against the other request's locks between the statements of a PROCEDURE,
+        # and the reads inside TRIGGER / FUNCTION bodies can be checked for snapshot-dependence.  `engine.stmt_hook` is None except
+        # while a history op "race" runs (one attribute test per routine statement otherwise).
+        if rscope is not None:
             name = type(node).__name__
             if name == 'DeclareCursor':
                 rscope.routine.cursor_asts[node.name.lower()] = node.select
             if name in _GATED:
                 gate_node = rscope.routine.cursor_asts.get(node.cursor.lower(), node) if name == 'Open' else node
                 eng = self.engine
+                kind = rscope.routine.kind
 
-                def gated(env, fn=fn, gate_node=gate_node):
+                def gated(env, fn=fn, gate_node=gate_node, kind=kind):
                     h = eng.stmt_hook
                     if h is None:
                         return fn(env)
-                    return h(gate_node, env, fn)
+                    return h(gate_node, env, fn, kind)
                 return gated
         return fn
 
